@@ -142,4 +142,14 @@ PROPS = {
         "partial": "the per-item transmission bound over histories is the C15 tx_bound lemma instantiated per fill (the custom key type has no decidable equality in general); 'broadcast() sends at most num_indirect_probes Broadcast datagrams and stops when drained' is checked by the falsifier and the refinement check",
         "assumptions": ["items longer than 65535 bytes are rejected by add_broadcast (fix 871834b)"],
     },
+    "C12": {
+        "level_text": "Coq theorems on the model of probe.rs and of the message reactions: direct evidence only from an Ack with the current number from the probed member; indirect evidence only from a ForwardedAck with the current number from an asked, not-yet-counted helper (struck off: counted once); every round start / clear resets it; the target is handed over for suspicion iff the round did not succeed; the PingReq fan-out has at most num_indirect_probes members, each an active record other than the target; Ping n is answered by Ack n to the sender, and PingReq -> IndirectPing -> IndirectAck -> ForwardedAck each emit exactly one datagram to the right member whose header preserves origin/target/number (via the datagram shape theorem); requests naming the instance itself return IndirectForOurselves with no send. The whole-round statement (suspicion raised iff no genuine evidence, exactly one timeout) is decided by an exhaustive evidence table + four-instance relay chain on the real crate and by the refinement check (probe/members/timers/sends).",
+        "technique": "Coq proof (case analysis on the probe record, equational reduction of the reactions) + per-step refinement check + exhaustive evidence table on the implementation",
+        "scope": {"inputs": ["timer.probe", "timer.indirect", "data"], "components": ["probe", "members", "timers", "sends", "result", "rng_use"]},
+        "refine": refine(),
+        "falsify": {"quick": 16, "thorough": 800},
+        "trusted_base": TB_COMMON + ["CodecLaws, ExtraLaws (for the reply shape)"],
+        "partial": "C12_round_end (Suspect applied + exactly one ChangeSuspectToDown when the round fails) is not stated as one theorem; its ingredients are (take_failed_iff, the invariant pass) and the clause is decided on the implementation by the exhaustive table",
+        "assumptions": ["instance is Connected and not defunct for the reply clauses"],
+    },
 }
